@@ -43,8 +43,10 @@
 #define SBASE 0x700000000UL
 #define RSZ 4096
 #define NARG 10
-#define DMAX 4096           /* == RSIZE_MAX_STR */
-#define WDMAX 1024          /* == RSIZE_MAX_WSTR */
+#define DMAX_DEFAULT 4096   /* == RSIZE_MAX_STR */
+#define WDMAX_DEFAULT 1024  /* == RSIZE_MAX_WSTR */
+/* the dmax handed to the buffer variants: the limits by default, `dm=<n>` on an op line overrides both */
+static size_t DMAX = DMAX_DEFAULT, WDMAX = WDMAX_DEFAULT;
 #define OUTSZ (1 << 16)
 
 static unsigned char *S;
@@ -52,8 +54,8 @@ static int stride;
 static int hcount, hcode;
 static void on_constraint(const char *msg, void *p, errno_t e) { (void)msg; (void)p; hcount++; hcode = (int)e; }
 
-static char dest[2 * DMAX];
-static wchar_t wdest[2 * DMAX];
+static char dest[2 * DMAX_DEFAULT];
+static wchar_t wdest[2 * DMAX_DEFAULT];
 static const char *g_in; static size_t g_inlen;
 static wchar_t g_win[2048];
 static FILE *g_stream;
@@ -222,7 +224,7 @@ int main(void) {
     set_str_constraint_handler_s(on_constraint);
     signal(SIGPIPE, SIG_IGN);
     while (fgets(line, sizeof line, ops)) {
-        char *id = NULL, *kind = NULL, *hf = NULL, *hi = NULL, *only = NULL, *save = NULL;
+        char *id = NULL, *kind = NULL, *hf = NULL, *hi = NULL, *only = NULL, *save = NULL, *dm = NULL;
         size_t L = strlen(line);
         while (L && (line[L - 1] == '\n' || line[L - 1] == '\r')) line[--L] = 0;
         for (char *tok = strtok_r(line, " ", &save); tok; tok = strtok_r(NULL, " ", &save)) {
@@ -231,8 +233,13 @@ int main(void) {
             else if (!strncmp(tok, "fmt=", 4)) hf = tok + 4;
             else if (!strncmp(tok, "in=", 3)) hi = tok + 3;
             else if (!strncmp(tok, "only=", 5)) only = tok + 5;
+            else if (!strncmp(tok, "dm=", 3)) dm = tok + 3;
         }
         if (!id || !kind || !hf) continue;
+        DMAX = dm ? (size_t)strtoul(dm, NULL, 10) : DMAX_DEFAULT;
+        WDMAX = dm ? (size_t)strtoul(dm, NULL, 10) : WDMAX_DEFAULT;
+        if (DMAX > DMAX_DEFAULT) DMAX = DMAX_DEFAULT;
+        if (WDMAX > WDMAX_DEFAULT) WDMAX = WDMAX_DEFAULT;
         int nf = unhex(hf, fmt, sizeof fmt), ni = unhex(hi ? hi : "", in, sizeof in);
         if (nf < 0 || ni < 0) { printf("id=%s err=badhex\n", id); continue; }
         for (int i = 0; i <= nf; i++) wfmt[i] = (wchar_t)fmt[i];
